@@ -363,6 +363,31 @@ inline std::vector<std::string> stringsJson() {
   return v;
 }
 
+// strings in which every byte has neighbours: all 3-byte strings over 16 byte values that sit at the edges of the escaping and
+// UTF-8 classes (so that U+2028/2029, U+FFFF, overlongs, lone continuation bytes, escapes next to high bytes all occur)
+inline std::vector<std::string> contextStrings() {
+  static const unsigned char B[] = {0x00, 0x1f, 0x20, 0x22, 0x5c, 0x7f, 0x80, 0xa8, 0xa9, 0xaf, 0xbf, 0xc2, 0xe2, 0xef, 0xf4, 0xff};
+  std::vector<std::string> v;
+  for (unsigned char a : B)
+    for (unsigned char b : B)
+      for (unsigned char c : B) v.push_back(std::string{char(a), char(b), char(c)});
+  std::string desc, twice;
+  for (int i = 255; i >= 0; i--) desc.push_back(char(i));
+  for (int i = 0; i < 256; i++) twice += std::string(2, char(i));
+  v.push_back(desc);
+  v.push_back(twice);
+  // NUL and an escape far from the start (beyond every writer's staging buffer)
+  v.push_back(pattern(63) + std::string("\0", 1) + pattern(70) + "\n" + pattern(5));
+  return v;
+}
+
+// raw values that reach the writers as ONE block: valid JSON (a quoted string) of the given total length, distinguishable by position
+inline std::string longRaw(size_t n) {
+  std::string r = "\"" + pattern(n - 2) + "\"";
+  for (size_t i = 1; i + 1 < n; i += 10) r[i] = char('0' + (i / 10) % 10);
+  return r;
+}
+
 inline std::vector<MValue> fullLeaves(bool withRaw) {
   std::vector<MValue> L = {MValue::null(), MValue::boolean(true), MValue::boolean(false)};
   for (i128 x : intsJson()) L.push_back(MValue::integer(x));
@@ -371,6 +396,8 @@ inline std::vector<MValue> fullLeaves(bool withRaw) {
   for (auto& s : stringsJson()) L.push_back(MValue::str(s));
   if (withRaw)
     for (const char* r : {"1e5", "[1,2]", "\"x\"", "", "{\"a\": [ true ]}", "-0.0"}) L.push_back(MValue::raw(r));
+  if (withRaw)
+    for (size_t n : {31, 32, 33, 63, 64, 65, 127, 128, 129, 255, 256, 257, 1000}) L.push_back(MValue::raw(longRaw(n)));
   return L;
 }
 
@@ -471,6 +498,13 @@ inline void forEachDoc(const DocOptions& o, const DocSink& f, std::vector<std::s
     a2.a.push_back(l);
     f(a2, 0);
   }
+  // S1b strings whose bytes have neighbours, as a value and as a key
+  for (auto& cs : contextStrings()) {
+    f(MValue::str(cs), 0);
+    MValue ob = MValue::object();
+    ob.o.emplace_back(cs, MValue::integer(1));
+    f(ob, 0);
+  }
   // S3 keys over all byte values
   std::vector<std::string> keys = stringsJson();
   for (auto& k : keys) {
@@ -511,8 +545,8 @@ inline void forEachDoc(const DocOptions& o, const DocSink& f, std::vector<std::s
     for (int d : o.deep) dl += "," + std::to_string(d);
     bounds->push_back("documents: every leaf of the full alphabet (" + std::to_string(full.size()) +
                       " leaves: null, booleans, integer boundaries 2^k+-1 and 10^k, 10^k-1 in both storages, float and double "
-                      "boundary values, the 256 one-byte strings, the all-bytes string" +
-                      (o.withRaw ? ", raw values" : "") + ") alone, in [x], {\"k\":x}, [x,x]; " + std::to_string(keys.size()) +
+                      "boundary values, the 256 one-byte strings, the all-bytes string (ascending, descending, doubled), all 4096 three-byte strings over 16 class-boundary bytes as value and key" +
+                      (o.withRaw ? ", raw values incl. single blocks of 31..1000 bytes" : "") + ") alone, in [x], {\"k\":x}, [x,x]; " + std::to_string(keys.size()) +
                       " keys incl. every byte value; all trees with <= " + std::to_string(o.nodes) + " nodes over " +
                       std::to_string(G.leavesTop.size()) + " leaves (" + std::to_string(G.leavesDeep.size()) + " at depth >= " +
                       std::to_string(G.deepFrom) + ") and " + std::to_string(G.keys.size()) +
